@@ -112,8 +112,8 @@ def EXTRA(tier):
         results.append(d)
 
     try:
-        e1 = genid.translate(fn, '1')
-        e2 = genid.translate(fn, '2')
+        e1 = genid.translate(fn, '1', base_server.BaseServer)
+        e2 = genid.translate(fn, '2', base_server.BaseServer)
     except genid.Unsupported as u:
         for n in ('a_charset_length', 'b_counter_injective', 'c_counter_step', 'd_random_bits'):
             res(n, 'inconclusive', reason='encoding unsupported: %s' % u)
